@@ -233,10 +233,10 @@ def do_stack(c):
     env = stack_env()
     phy = env["Phy"]()
     ll = phy.get_layer('ll')
+    from whad.hub.ble.bdaddr import BDAddress
+    a1, a2 = BDAddress('11:22:33:44:55:66'), BDAddress('66:55:44:33:22:11')
     for h in c["handles"]:
-        ll.state.connections[h] = {'l2cap': 'l2cap#0', 'version_sent': False, 'version_remote': None,
-                                   'encryption_key': None, 'authenticated': False, 'encrypted': False,
-                                   'skd': None, 'iv': None, 'rand': None, 'ediv': None, 'nb_pdu_recvd': 0}
+        ll.state.register_connection(h, None, a1, a2)     # no L2CAP instance: only the link layer is driven
     out = []
     for ev in c["events"]:
         phy.messages.clear()
@@ -254,6 +254,10 @@ def do_stack(c):
             elif ev[0] == "startencreq":
                 phy.send('ll', BTLE_DATA() / env["BTLE_CTRL"]() / env["LL_START_ENC_REQ"](),
                          tag='control', conn_handle=ev[1])
+            elif ev[0] == "conn":
+                ll.state.register_connection(ev[1], None, a1, a2)
+            elif ev[0] == "disc":
+                ll.on_disconnect(ev[1])
             elif ev[0] == "encreq":
                 env["queue"].extend([ev[6], ev[7]])
                 phy.send('ll', BTLE_DATA() / env["BTLE_CTRL"]() / env["LL_ENC_REQ"](rand=ev[2], ediv=ev[3], skdm=ev[4], ivm=ev[5]),
